@@ -83,7 +83,9 @@ Definition find_pod (ps : list podv) (n : Z) : option podv := List.find (fun p =
 Definition find_rec (rs : list prec) (n : Z) : option prec := List.find (fun r => r_name r =? n) rs.
 (* a pod's kind carries "+10" when it is owned by a ReplicaSet (not a fixed-name pod) *)
 Definition base_kind (p : podv) : podv := mkPv (q_name p) (q_uid p) (q_node p) (q_exited p) (q_kind p mod 10).
-Definition fixed_name (p : podv) : bool := q_kind p <? 10.
+(* ... and "+100" while it is terminating (deletion timestamp set, still running) *)
+Definition fixed_name (p : podv) : bool := q_kind p mod 100 <? 10.
+Definition terminating (b : blk) (n : Z) : bool := match find_pod (b_pods b) n with Some p => 100 <=? q_kind p | None => false end.
 Definition pod_of (b : blk) (n : Z) : option podv := match find_pod (b_pods b) n with Some p => Some (base_kind p) | None => None end.
 Definition calls_clean (cs : list (list Z)) : bool := forallb (fun c => match c with _ :: _ :: ok :: _ => ok =? 1 | _ => true end) cs.
 Definition allocs_eqb (a b : list alloc) : bool :=
@@ -103,7 +105,10 @@ Definition step_model (prev : list prec) (b : blk) : Z :=
   let n := b_name b in
   if b_step b =? 4 then
     if negb (others_same prev (b_recs b) n) then 41 else
-    match pod_ctl (pod_of b n) (find_rec prev n), find_rec prev n, find_rec (b_recs b) n with
+    (* a terminating pod whose sandbox has not exited is left alone by the pod controller until it is gone *)
+    let waits := terminating b n && match pod_of b n with Some p => negb (q_exited p) | None => false end in
+    match (if waits then (match find_rec prev n with Some _ => PRequeue | None => PNone end) else pod_ctl (pod_of b n) (find_rec prev n)),
+          find_rec prev n, find_rec (b_recs b) n with
     | PNone, None, None => 0
     | PNone, Some r, Some c | PRequeue, Some r, Some c => if (r_phase c =? r_phase r) && same_but_phase r c then 0 else 42
     | PCreate, None, Some c =>
@@ -229,7 +234,7 @@ Definition allocs_stable (prev cur : list prec) : bool :=
 (* kinds 1..4: fixed allocations only; 6, 7: an elastic interface beside a fixed one (the record as a whole is a fixed-IP record) *)
 Definition fixed_kind (k : Z) : bool := ((1 <=? k mod 10) && (k mod 10 <=? 4)) || (k mod 10 =? 6) || (k mod 10 =? 7).
 Definition rebound_ok (b : blk) : bool :=
-  forallb (fun p => if fixed_kind (q_kind p) && fixed_name p && negb (q_exited p) then
+  forallb (fun p => if fixed_kind (q_kind p) && fixed_name p && negb (q_exited p) && negb (100 <=? q_kind p) then
                       match find_rec (b_recs b) (q_name p) with
                       | Some r => (r_phase r =? 1) && (r_uid r =? q_uid p)
                       | None => false end
